@@ -661,6 +661,98 @@ def r85_support_point(ctx, res):
                           construct="%s.__hash__ support point" % cname, detail={"before": f0[:300], "after": f1[:300]})
 
 
+# R8.9 -- the coordinate hash separates: ConvexPolygon / ConvexPolyhedron equality *is* hash equality, and the hash of a
+# polygon is accumulated from the hashes of its vertices, so two different vertices must not hash alike systematically.
+COORD_ATOMS = {"Point": ("self.x", "self.y", "self.z"), "Vector": ("self._v[0]", "self._v[1]", "self._v[2]")}
+
+
+def r89_separation(ctx, res):
+    n = 0
+    for cname, atoms in COORD_ATOMS.items():
+        c = ctx.repo.cls(cname)
+        h, eq = c.lookup("__hash__"), c.lookup("__eq__")
+        if h is None or eq is None or h.cls.name != cname:
+            res.note("%s has no __hash__/__eq__ of its own (reported by R8.1); separation not evaluated" % cname)
+            continue
+        eq_txt = txt(eq.node)
+        for a in atoms:
+            if a not in eq_txt:
+                raise AnalysisError("%s.__eq__ does not compare `%s`; the coordinates of %s cannot be named" % (cname, a, cname))
+        comps = hashed_components(h)
+
+        def poly(e) -> Optional[Poly]:
+            t = txt(e)
+            if t in atoms:
+                return P(t)
+            if isinstance(e, ast.Call) and isinstance(e.func, ast.Name) and e.func.id in ("round", "float") and e.args:
+                return poly(e.args[0])  # rounding to the significant figures: monotone, identity on the lattice of rounded values
+            if isinstance(e, ast.Constant) and isinstance(e.value, (int, float)) and not isinstance(e.value, bool):
+                return C(e.value)
+            if isinstance(e, ast.UnaryOp) and isinstance(e.op, ast.USub):
+                q = poly(e.operand)
+                return None if q is None else pmul(C(-1), q)
+            if isinstance(e, ast.BinOp) and isinstance(e.op, (ast.Add, ast.Sub, ast.Mult)):
+                l, r = poly(e.left), poly(e.right)
+                if l is None or r is None:
+                    return None
+                return padd(l, r) if isinstance(e.op, ast.Add) else (padd(l, r, -1) if isinstance(e.op, ast.Sub) else pmul(l, r))
+            return None
+
+        polys, opaque = [], []
+        for cmp_ in comps:
+            if isinstance(cmp_, ast.Constant):
+                continue
+            q = poly(cmp_)
+            (polys if q is not None else opaque).append((cmp_, q))
+        for a in atoms:
+            n += 1
+            lab = "%s.__hash__ separates `%s`" % (cname, a)
+            alone = [cmp_ for cmp_, q in polys
+                     if any(k == (a,) and v != 0 for k, v in q.items()) and all(k in ((), (a,)) for k, v in q.items() if v != 0)]
+            if alone:
+                res.ob("R8.9", h.where(alone[0]), lab, True, "component `%s` is an injective function of this coordinate alone" % txt(alone[0])[:50])
+                continue
+            if any(a in txt(cmp_) for cmp_, _ in opaque):
+                raise AnalysisError("%s: whether the hashed components separate `%s` cannot be decided (`%s`)" % (
+                    h.where(), a, txt([c_ for c_, _ in opaque if a in txt(c_)][0])[:50]))
+            # every component that mentions the coordinate vanishes with the other coordinates: a family of collisions
+            rest = [q for _, q in polys if any(a in k and v != 0 and all(x == a for x in k) for k, v in q.items())]
+            if rest:
+                raise AnalysisError("%s: `%s` enters the hash only through non-linear components; separation cannot be decided" % (h.where(), a))
+            others = [b for b in atoms if b != a]
+            res.ob("R8.9", h.where(), lab, False, "with %s = 0 no hashed component depends on it" % ", ".join(others))
+            res.violation("R8.9", h, h.node,
+                          "%s.__hash__ does not separate `%s`: no hashed component is a function of it alone, and with %s = 0 every "
+                          "component that mentions it vanishes, so all such %ss hash alike. ConvexPolygon / ConvexPolyhedron equality "
+                          "is equality of the accumulated vertex hashes: two different polygons that differ in such a vertex compare equal"
+                          % (cname, a, " = ".join(others), cname.lower()),
+                          construct="%s.__hash__ separation of %s" % (cname, a),
+                          detail={"hashed components": [txt(c_)[:80] for c_ in comps]})
+    ctx.require(res, "R8.9", n, 6, "coordinates of Point and Vector")
+
+
+def r810_exact(ctx, res):
+    """R8.10: every decision inside __eq__ / __hash__ (and what they reach) is tolerant (R-EXACT)"""
+    from ..exact import report_exact
+    eng = ctx.types
+    roots = []
+    for c in ctx.repo.classes():
+        if c.name not in GEOM7 and c.name != "Vector":
+            continue
+        for m in ("__eq__", "__hash__"):
+            f = c.lookup(m)
+            if f is None:
+                continue
+            args = (S(c.name), S(c.name)) if m == "__eq__" else (S(c.name),)
+            if eng.summary(f, args) is not None:
+                roots.append((f, args))
+    reached = eng.reached_from(roots)
+    fns = [f for f in ctx.repo.functions(include_visualization=False) if f.qual in reached]
+    k = report_exact(ctx, res, "R8.10", fns, "__eq__ / __hash__")
+    ctx.require(res, "R8.10", len(roots), 12, "__eq__ / __hash__ contexts")
+    ctx.require(res, "R8.10", k, 10, "decision atoms reached from __eq__ / __hash__")
+
+
 def run(ctx, res):
     res.explanation = (
         "Static decision of the hashing/equality structure: __eq__/__hash__ pairing; foreign types compare False "
@@ -679,4 +771,6 @@ def run(ctx, res):
     r84(ctx, res, stale)
     r86_r87(ctx, res)
     r85_support_point(ctx, res)
+    r89_separation(ctx, res)
+    r810_exact(ctx, res)
     res.undecided_ob("objects denoting different sets compare unequal; rounding-boundary effects; int/Fraction mixing")
